@@ -1,1 +1,283 @@
-/-! Property theorems for C17 (stub: none yet). -/
+/-
+C17 - Remote property access honours declared type and access mode.
+
+Code model: Obj/Props.lean (mirrors txdbus/objects.py after fixes/C17-01..04).  Specification:
+Obj/PropsSpec.lean (the map (instance, interface, property) -> value and the predicates `GetAllowed`,
+`SetAllowed`, `GetAllAllowed`, `AssignAllowed` written from the statement).  Reading of the code against the
+specification: Obj/PropsRefine.lean (`sdeclOf`, `AttrConsistent`, `Cfg.Sound`, `GoodHist`, `Sim`).
+
+All theorems quantify over ALL declarations `D` that elaborate (every DBusProperty binds to a property of an
+interface of the object) with consistent attribute names, ALL histories `h` of export / local assignment /
+remote Get / Set / GetAll in which every Set names an interface and carries a wire value, every instance,
+interface name and property name, and every configuration `cfg` of the code that is `Sound` (injective
+storage key + the repaired GetAll / Set behaviour); `Cfg.repaired` is sound (`repaired_sound`).  The
+`original_*` theorems are `decide`-checked witnesses that the code before the repairs (`Cfg.original`)
+violates the corresponding statement on a concrete input (the same inputs are in corpus/C17/).
+-/
+import TxdbusModel.Obj.PropsRefine
+import TxdbusModel.Proofs.Obj.PropsGetAll
+
+namespace Txdbus.Properties.C17
+open Txdbus.Obj.Props Txdbus.Obj.PropsSpec
+
+/-! ### the storage key -/
+
+/-- The repaired key `(interface, pname)` keeps distinct (interface, property) pairs apart. -/
+theorem keyPair_injective (i p i' p' : Str) (h : keyPair i p = keyPair i' p') : i = i' ∧ p = p' := by
+  unfold keyPair at h
+  exact ⟨congrArg Prod.fst h, congrArg Prod.snd h⟩
+
+/-- F25: the original key `interface + pname` does not: ("org.a","bc") and ("org.ab","c") collide. -/
+theorem keyConcat_collides :
+    keyConcat "org.a".toList "bc".toList = keyConcat "org.ab".toList "c".toList ∧
+    ("org.a".toList, "bc".toList) ≠ ("org.ab".toList, "c".toList) := by
+  decide
+
+theorem repaired_sound : Cfg.repaired.Sound :=
+  ⟨keyPair_injective, rfl, rfl, rfl⟩
+
+/-- ... so no configuration using the original key is sound. -/
+theorem original_not_sound : ¬ Cfg.original.Sound := by
+  intro h
+  have := h.key_inj "org.a".toList "bc".toList "org.ab".toList "c".toList keyConcat_collides.1
+  exact absurd this (by decide)
+
+/-! ### tables and typing (tie to the generated tables; lemmas restated for the audit) -/
+
+theorem accessTable_eq :
+    Gen.C17Props.accessTable =
+      [(false, false, (normAccess false false).name), (false, true, (normAccess false true).name),
+       (true, false, (normAccess true false).name), (true, true, (normAccess true true).name)] :=
+  Txdbus.Obj.Props.accessTable_eq
+
+theorem emitsTable_eq :
+    Gen.C17Props.emitsTable =
+      [EmitsArg.true_, .false_, .invalidates, .const].map fun a =>
+        (a.label, match normEmits a with | some e => e.name | none => "TypeError") :=
+  Txdbus.Obj.Props.emitsTable_eq
+
+theorem classMap_facts :
+    Gen.C17Props.classMap.all (fun e => e.2.2 = e.1) = true ∧
+    (Gen.C17Props.classMap.map fun e => (e.1, e.2.1)) =
+      [('y', "int"), ('b', "int"), ('n', "int"), ('q', "int"), ('i', "int"), ('u', "int"), ('x', "int"),
+       ('t', "int"), ('g', "str"), ('o', "str")] :=
+  Txdbus.Obj.Props.classMap_facts
+
+/-- The repaired Set accepts a wire value exactly when it is a value of the declared type. -/
+theorem conforms_eq_hasType (sig : Str) (v : PyVal) (hw : wireOk v = true) :
+    conforms sig v = HasTypeSig sig v :=
+  Txdbus.Obj.Props.conforms_eq_hasType sig v hw
+
+/-! ### the state after any history -/
+
+/-- After every history the code state represents the specification state: the slot of every declared
+property of every instance holds the value most recently assigned to it, locally or by a successful
+remote Set - nothing else ever writes it. -/
+theorem reachable_state_refines_spec {D : Decls} {W : World} (hD : elaborate D = some W)
+    (hA : AttrConsistent W) {cfg : Cfg} (hc : cfg.Sound) {h : List Op} (hg : GoodHist h) :
+    Sim cfg W (Obj.Props.run cfg W h) (Obj.PropsSpec.run (sdeclOf W) h) :=
+  run_sim (elaborate_good hD) hA hc hg
+
+/-! ### 1. Get returns the last write, typed as declared -/
+
+theorem get_returns_last_write {D : Decls} {W : World} (hD : elaborate D = some W)
+    (hA : AttrConsistent W) {cfg : Cfg} (hc : cfg.Sound) {h : List Op} (hg : GoodHist h)
+    (o : Nat) (i p : Str) (hi : i ≠ []) (ho : (Obj.PropsSpec.run (sdeclOf W) h).attached o = true)
+    {sp : SProp} (hsp : (sdeclOf W).find i p = some sp) (hr : sp.readable = true)
+    {v : PyVal} (hv : (Obj.PropsSpec.run (sdeclOf W) h).val o i p = some v)
+    (ht : HasTypeSig sp.sig v = true) :
+    ∃ sg, step cfg W (Obj.Props.run cfg W h) (.get o i p) = (Obj.Props.run cfg W h, [.retV sg v]) ∧
+      (IsBasic sp.sig = true → sg = sp.sig) := by
+  have hS := reachable_state_refines_spec hD hA hc hg
+  have hall := opGet_allowed (elaborate_good hD) hA hS o p hi
+  unfold GetAllowed at hall
+  rw [hsp] at hall
+  simp only [hr, if_true] at hall
+  obtain ⟨sg, e, hb⟩ := hall v hv ht
+  refine ⟨sg, ?_, hb⟩
+  have hoa : o ∈ (Obj.Props.run cfg W h).attached := (hS.att o).mpr ho
+  simp only [List.cons.injEq, and_true] at e
+  simp [step, hoa, e]
+
+/-! ### 2. the access matrix -/
+
+theorem access_matrix {D : Decls} {W : World} (hD : elaborate D = some W)
+    (hA : AttrConsistent W) {cfg : Cfg} (hc : cfg.Sound) {h : List Op} (hg : GoodHist h)
+    (o : Nat) (i p : Str) (hi : i ≠ []) (ho : (Obj.PropsSpec.run (sdeclOf W) h).attached o = true) :
+    let st := Obj.Props.run cfg W h
+    let s := Obj.PropsSpec.run (sdeclOf W) h
+    -- Get: a value only for a declared readable property, an error otherwise; never a state change
+    (GetAllowed (sdeclOf W) s o i p (step cfg W st (.get o i p)).2 ∧ (step cfg W st (.get o i p)).1 = st) ∧
+    -- Set: success (with the new state) iff declared, writeable and well typed; otherwise an error reply
+    -- and the state is unchanged
+    (∀ v, wireOk v = true →
+      SetAllowed (sdeclOf W) o i p v (step cfg W st (.set o i p v)).2 ∧
+      (IsErr (step cfg W st (.set o i p v)).2 → (step cfg W st (.set o i p v)).1 = st) ∧
+      Sim cfg W (step cfg W st (.set o i p v)).1 (next (sdeclOf W) s (.set o i p v))) ∧
+    -- GetAll: an error for an interface the object does not have; never a state change
+    (GetAllAllowed (sdeclOf W) s o i (step cfg W st (.getAll o i)).2 ∧
+      (step cfg W st (.getAll o i)).1 = st) := by
+  intro st s
+  have hW := elaborate_good hD
+  have hS : Sim cfg W st s := reachable_state_refines_spec hD hA hc hg
+  have hoa : o ∈ st.attached := (hS.att o).mpr ho
+  refine ⟨⟨?_, step_fst_get cfg W st o i p⟩, ?_, ?_, step_fst_getAll cfg W st o i⟩
+  · have : (step cfg W st (.get o i p)).2 = [opGet cfg W st o i p] := by simp [step, hoa]
+    rw [this]; exact opGet_allowed hW hA hS o p hi
+  · intro v hw
+    have : step cfg W st (.set o i p v) = opSet cfg W st o i p v := by simp [step, hoa]
+    rw [this]
+    obtain ⟨a, b, c⟩ := opSet_step hW hA hc hS hoa p hi hw
+    exact ⟨b, c, a⟩
+  · have : (step cfg W st (.getAll o i)).2 = [opGetAll cfg W st o i] := by simp [step, hoa]
+    rw [this]; exact opGetAll_allowed hW hA hc hS o hi
+
+/-! ### 3. GetAll is exact, across the inheritance chain -/
+
+theorem getall_exact {D : Decls} {W : World} (hD : elaborate D = some W)
+    (hA : AttrConsistent W) {cfg : Cfg} (hc : cfg.Sound) {h : List Op} (hg : GoodHist h)
+    (o : Nat) (i : Str) (hi : i ≠ []) (ho : (Obj.PropsSpec.run (sdeclOf W) h).attached o = true)
+    (hk : i ∈ (sdeclOf W).ifaces)
+    (hvals : ∀ sp ∈ (sdeclOf W).props, sp.iface = i → sp.readable = true →
+      ∃ v, (Obj.PropsSpec.run (sdeclOf W) h).val o i sp.name = some v ∧ HasTypeSig sp.sig v = true) :
+    ∃ l, step cfg W (Obj.Props.run cfg W h) (.getAll o i) = (Obj.Props.run cfg W h, [.retD l]) ∧
+      (l.map (·.1)).Nodup ∧
+      (∀ p, p ∈ l.map (·.1) ↔ ∃ sp, (sdeclOf W).find i p = some sp ∧ sp.readable = true) ∧
+      (∀ p sg w, (p, sg, w) ∈ l →
+        ∃ sp, (sdeclOf W).find i p = some sp ∧ (Obj.PropsSpec.run (sdeclOf W) h).val o i p = some w ∧
+          (IsBasic sp.sig = true → sg = sp.sig)) := by
+  have hS := reachable_state_refines_spec hD hA hc hg
+  have hall := opGetAll_allowed (elaborate_good hD) hA hc hS o hi
+  unfold GetAllAllowed at hall
+  rw [if_pos hk] at hall
+  obtain ⟨l, e, h1, h2, h3⟩ := hall hvals
+  have hoa : o ∈ (Obj.Props.run cfg W h).attached := (hS.att o).mpr ho
+  simp only [List.cons.injEq, and_true] at e
+  exact ⟨l, by simp [step, hoa, e], h1, h2, h3⟩
+
+/-! ### 4. PropertiesChanged -/
+
+/-- A local assignment through a declared attribute emits exactly one PropertiesChanged naming the
+interface, the property and the new value iff the property's mode is `true` (the instance being exported and
+the value one that can be sent); in every other case it emits no signal.  The state afterwards is the
+specification's.  (For a remote Set the same is part of `access_matrix` through `SetAllowed`.) -/
+theorem changed_signal {D : Decls} {W : World} (hD : elaborate D = some W)
+    (hA : AttrConsistent W) {cfg : Cfg} (hc : cfg.Sound) {h : List Op} (hg : GoodHist h)
+    (o : Nat) (a : Str) (v : PyVal) :
+    AssignAllowed (sdeclOf W) (Obj.PropsSpec.run (sdeclOf W) h) o a v
+      (step cfg W (Obj.Props.run cfg W h) (.assign o a v)).2 ∧
+    ((step cfg W (Obj.Props.run cfg W h) (.assign o a v)).2.filter isSignal).length ≤ 1 := by
+  have hS := reachable_state_refines_spec hD hA hc hg
+  have hall := (assign_step hc hS o a v).2
+  refine ⟨hall, ?_⟩
+  unfold AssignAllowed at hall
+  split at hall
+  · rw [hall]; decide
+  · split at hall
+    · obtain ⟨sg, e⟩ := hall
+      rw [e]; simp [List.filter, isSignal]
+    · have : (step cfg W (Obj.Props.run cfg W h) (.assign o a v)).2.filter isSignal = [] := by
+        rw [List.filter_eq_nil_iff]
+        intro x hx
+        simp [hall x hx]
+      rw [this]; simp
+
+/-! ### the hypotheses are satisfiable: a two-class chain with colliding names -/
+
+def sA : Str := "org.a".toList
+def sAB : Str := "org.ab".toList
+def sBC : Str := "bc".toList
+def sC : Str := "c".toList
+def sRO : Str := "ro".toList
+
+/-- Base declares `ro` (read-only string) for org.a; Derived declares `bc` for org.a and `c` for org.ab, both
+read-write int32 emitting changes; Derived lists both interfaces. -/
+def exDecls : Decls :=
+  [ { ifaces := [⟨sA, [(sBC, ⟨sBC, ['i'], .readwrite, .yes⟩), (sRO, ⟨sRO, ['s'], .read, .no⟩)]⟩,
+                 ⟨sAB, [(sC, ⟨sC, ['i'], .readwrite, .yes⟩)]⟩],
+      descs := [⟨"p_bc".toList, sBC, some sA⟩, ⟨"p_c".toList, sC, none⟩] },
+    { ifaces := [], descs := [⟨"p_ro".toList, sRO, some sA⟩] } ]
+
+def exWorld : World := (elaborate exDecls).getD ⟨[], [], []⟩
+
+theorem exWorld_elab : elaborate exDecls = some exWorld := by decide
+
+theorem exWorld_attrConsistent : AttrConsistent exWorld := by
+  unfold AttrConsistent; decide
+
+def exHist : List Op :=
+  [.assign 0 "p_bc".toList (.int 1), .assign 0 "p_c".toList (.int 2), .assign 0 "p_ro".toList (.str ['x']),
+   .export 0, .set 0 sA sBC (.int 7), .set 0 sA sBC (.str ['z']), .set 0 sA sRO (.str ['y'])]
+
+theorem exHist_good : GoodHist exHist := by
+  unfold GoodHist; decide
+
+/-- The repaired model on that input: Get(org.a, bc) = 7 as 'i' (the wrong-typed and the read-only Set
+were refused), Get(org.ab, c) = 2, GetAll(org.a) = {bc, ro} across both classes, GetAll(org.zzz) an error. -/
+example :
+    (step Cfg.repaired exWorld (Obj.Props.run Cfg.repaired exWorld exHist) (.get 0 sA sBC)).2 = [.retV ['i'] (.int 7)] ∧
+    (step Cfg.repaired exWorld (Obj.Props.run Cfg.repaired exWorld exHist) (.get 0 sAB sC)).2 = [.retV ['i'] (.int 2)] ∧
+    (step Cfg.repaired exWorld (Obj.Props.run Cfg.repaired exWorld exHist) (.getAll 0 sA)).2 =
+      [.retD [(sBC, ['i'], .int 7), (sRO, ['s'], .str ['x'])]] ∧
+    (step Cfg.repaired exWorld (Obj.Props.run Cfg.repaired exWorld exHist) (.getAll 0 "org.zzz".toList)).2 =
+      [.err .unknownIface] ∧
+    (Obj.PropsSpec.run (sdeclOf exWorld) exHist).val 0 sA sBC = some (.int 7) := by
+  decide
+
+/-! ### witnesses: the code before the repairs violates the statements (F25, F26, F32, wrong-typed Set) -/
+
+/-- F25: after `p_bc = 1; p_c = 2` the original code answers Get(org.a, bc) with 2. -/
+theorem original_violates_get_returns_last_write :
+    (step Cfg.original exWorld (Obj.Props.run Cfg.original exWorld (exHist.take 4)) (.get 0 sA sBC)).2 =
+      [.retV ['i'] (.int 2)] ∧
+    (Obj.PropsSpec.run (sdeclOf exWorld) (exHist.take 4)).val 0 sA sBC = some (.int 1) := by
+  decide
+
+/-- F26: the original GetAll(org.a) stops at the derived class and omits the base class's `ro`. -/
+theorem original_getall_misses_base_class :
+    (step { Cfg.original with key := keyPair } exWorld
+      (Obj.Props.run { Cfg.original with key := keyPair } exWorld (exHist.take 4)) (.getAll 0 sA)).2 =
+      [.retD [(sBC, ['i'], .int 1)]] ∧
+    (sdeclOf exWorld).find sA sRO = some ⟨"p_ro".toList, sA, sRO, ['s'], true, false, false⟩ := by
+  decide
+
+/-- F32: the original GetAll of an interface the object does not have answers an empty dictionary. -/
+theorem original_getall_unknown_interface_empty :
+    (step Cfg.original exWorld (Obj.Props.run Cfg.original exWorld (exHist.take 4))
+      (.getAll 0 "org.zzz".toList)).2 = [.retD []] ∧
+    "org.zzz".toList ∉ (sdeclOf exWorld).ifaces := by
+  decide
+
+/-- Wrong-typed Set: the original code stores the string 'z' in the int32 property, answers success (and
+emits PropertiesChanged), and the next Get fails. -/
+theorem original_set_wrong_type_then_get_fails :
+    (step { Cfg.original with key := keyPair } exWorld
+      (Obj.Props.run { Cfg.original with key := keyPair } exWorld (exHist.take 4))
+      (.set 0 sA sBC (.str ['z']))).2 = [.signal 0 sA sBC ['s'] (.str ['z']), .ret] ∧
+    (step { Cfg.original with key := keyPair } exWorld
+      (Obj.Props.run { Cfg.original with key := keyPair } exWorld (exHist.take 4 ++ [.set 0 sA sBC (.str ['z'])]))
+      (.get 0 sA sBC)).2 = [.err .value] := by
+  decide
+
+end Txdbus.Properties.C17
+
+#print axioms Txdbus.Properties.C17.keyPair_injective
+#print axioms Txdbus.Properties.C17.keyConcat_collides
+#print axioms Txdbus.Properties.C17.repaired_sound
+#print axioms Txdbus.Properties.C17.original_not_sound
+#print axioms Txdbus.Properties.C17.accessTable_eq
+#print axioms Txdbus.Properties.C17.emitsTable_eq
+#print axioms Txdbus.Properties.C17.classMap_facts
+#print axioms Txdbus.Properties.C17.conforms_eq_hasType
+#print axioms Txdbus.Properties.C17.reachable_state_refines_spec
+#print axioms Txdbus.Properties.C17.get_returns_last_write
+#print axioms Txdbus.Properties.C17.access_matrix
+#print axioms Txdbus.Properties.C17.getall_exact
+#print axioms Txdbus.Properties.C17.changed_signal
+#print axioms Txdbus.Properties.C17.exWorld_elab
+#print axioms Txdbus.Properties.C17.exWorld_attrConsistent
+#print axioms Txdbus.Properties.C17.exHist_good
+#print axioms Txdbus.Properties.C17.original_violates_get_returns_last_write
+#print axioms Txdbus.Properties.C17.original_getall_misses_base_class
+#print axioms Txdbus.Properties.C17.original_getall_unknown_interface_empty
+#print axioms Txdbus.Properties.C17.original_set_wrong_type_then_get_fails
